@@ -61,3 +61,5 @@ def run(P, R, tier):
     from ..engines import hist as _hist
     _hist.check(P, R)
 
+
+EXPLANATION += ' Also: (HIST) no module-level, class-level or default-argument container is mutated by any function of the package: nothing outlives a call that a later training could read.'
